@@ -314,7 +314,7 @@ def parse_config_sweep(viol):
 
 def fence_opener_sweep(viol):
     """the fence test of preprocess_tag_block_spacing (the regex literal handed to re.match in its body, read from the live
-    source) against CommonMark's rule 'at most three spaces of indentation, then a run of >= 3 backticks or tildes' on every
+    source) against CommonMark's rule 'at most three spaces of indentation, then a run of >= 3 backticks (and no further backtick on the line) or tildes' on every
     line of <= 7 symbols over {space, tab, backtick, tilde, a}: same verdict and same fence run"""
     _v0 = len(viol)
     import ast
@@ -334,6 +334,8 @@ def fence_opener_sweep(viol):
         k = len(s) - len(s.lstrip(" "))
         rest = s[k:]
         run = re.match(r"`{3,}|~{3,}", rest)
+        if run and run.group(0)[0] == "`" and "`" in rest[run.end():]:
+            run = None          # (a backtick fence line holds no further backtick: otherwise it is a code span)
         want = run.group(0) if (k <= 3 and run) else None
         got = m.group(1) if m else None
         n += 1
